@@ -60,7 +60,9 @@ func (gi *gitlabImporter) ImportAll(ctx context.Context, repo *cache.RepoCache, 
 	go func() {
 		defer close(out)
 
-		for issue := range Issues(ctx, gi.client, gi.conf[confKeyProjectID], since) {
+		issues, listErr := Issues(ctx, gi.client, gi.conf[confKeyProjectID], since)
+
+		for issue := range issues {
 
 			b, err := gi.ensureIssue(repo, issue)
 			if err != nil {
@@ -94,6 +96,11 @@ func (gi *gitlabImporter) ImportAll(ctx context.Context, repo *cache.RepoCache, 
 				out <- core.NewImportError(err, "")
 				return
 			}
+		}
+
+		// the listing ended: early because of an error, or because everything was listed
+		if err := <-listErr; err != nil {
+			out <- core.NewImportError(fmt.Errorf("issue listing: %v", err), "")
 		}
 	}()
 
